@@ -5,6 +5,7 @@ CONSTANTS
   MaxSteps = 7
   FixPrune = TRUE
   FixRestart = TRUE
+  PruneOutsideLock = FALSE
   Hist = TRUE
   Atomic = TRUE
   Ops <- Ops_all
